@@ -274,6 +274,12 @@ pub fn run(run: &mut Run) {
                 let opts = PrintOpts { break_brackets: true, layout: 3, full_parens: true, ..PrintOpts::default() };
                 let text = print_with(&v, opts).text;
                 judge(acc, "sugar+layout", format!("styles={:?} break_brackets noise parens", styles), text, true);
+                // prime calls that are a whole statement value, bare, continued over lines after each comma
+                for (brk, cmt) in [(false, false), (true, false), (true, true)] {
+                    let opts = PrintOpts { bare_prime_statements: true, break_brackets: brk, comment_in_breaks: cmt, ..PrintOpts::default() };
+                    let text = print_with(&v, opts).text;
+                    judge(acc, "sugar+layout", format!("styles={:?} bare prime statements break={} comments={}", styles, brk, cmt), text, true);
+                }
                 // comments after the separators at line ends, and redundant parentheses around callees
                 let opts = PrintOpts { break_brackets: true, comment_in_breaks: true, ..PrintOpts::default() };
                 let text = print_with(&v, opts).text;
@@ -297,7 +303,7 @@ pub fn run(run: &mut Run) {
         }
     });
     run.stats = Stats::merge_all(accs);
-    run.rule = "base programs: the statement families (short sequences), the recursion templates, expressions of size <= 1 in five call-heavy contexts and a feature-dense sample; per base every combination of 4 layout noise patterns (blank lines, comment lines, trailing comments, tab indentation) x redundant parentheses x CRLF x line breaks inside brackets (after `(`, `[`, `,`; and continuation lines that start with a binary operator or `->`) x redundant parentheses around whole values and around callees x comments after line-end separators, and every call-style vector over the first k call sites (f(a), f' a, a -> f(), a -> f') x trailing expression vs ret x loop do vs loop true do, plus every per-site choice of trailing expression vs `ret e` over the first 4 function bodies that end in an expression; non-trivial = the base compiles; distinct by base text".into();
+    run.rule = "base programs: the statement families (short sequences), the recursion templates, expressions of size <= 1 in five call-heavy contexts and a feature-dense sample; per base every combination of 4 layout noise patterns (blank lines, comment lines, trailing comments, tab indentation) x redundant parentheses x CRLF x line breaks inside brackets (after `(`, `[`, `,`; and continuation lines that start with a binary operator or `->`) x redundant parentheses around whole values and around callees x comments after line-end separators x prime calls written bare as whole statement values (continued over lines after commas), and every call-style vector over the first k call sites (f(a), f' a, a -> f(), a -> f') x trailing expression vs ret x loop do vs loop true do, plus every per-site choice of trailing expression vs `ret e` over the first 4 function bodies that end in an expression; non-trivial = the base compiles; distinct by base text".into();
     run.bounds = json!({"bases": bases.len(), "call_sites_varied": ksites});
     run.assumptions = vec![
         "layout variants are compared byte for byte after masking digit runs inside the message string of `__CRASH(\"...\")` (the source line of a reached `<!>`)".into(),
